@@ -604,7 +604,9 @@ Value Search::search(Position& position, Depth depth, Value alpha, Value beta,
 
                     tt::TTEntry entry(result, depth, tt::Flag::kLOWER_BOUND,
                                       move);
-                    _ttable.insert(position.hash(), entry);
+                    // a root restricted by searchmoves says nothing about the position itself
+                    if (!(ROOT_NODE && limits.searchmovesnum > 0))
+                        _ttable.insert(position.hash(), entry);
 
 #if LOG_LEVEL > 1
                     {
@@ -638,7 +640,8 @@ Value Search::search(Position& position, Depth depth, Value alpha, Value beta,
     {
         tt::Flag flag = PV_NODE ? tt::Flag::kEXACT : tt::Flag::kUPPER_BOUND;
         tt::TTEntry entry(bestValue, depth, flag, best_move);
-        _ttable.insert(position.hash(), entry);
+        if (!(ROOT_NODE && limits.searchmovesnum > 0))
+            _ttable.insert(position.hash(), entry);
 
         LOG_DEBUG("[%d] BEST MOVE %s", info->_ply,
                   position.uci(best_move).c_str());
